@@ -52,7 +52,14 @@ def kind_of(obs):
 def classify(run, case, impl, model):
     n, ev, i, m = first_diff(case, impl, model)
     evk = ev[0] if ev != "end" else "end"
-    return "event=%s/impl=%s/model=%s" % (evk, kind_of(i), kind_of(m))
+    sig = "event=%s/impl=%s/model=%s" % (evk, kind_of(i), kind_of(m))
+    # a Return while a local call is held inside PlaceArgs (h without its u): the peer may be answering a question whose
+    # Call it cannot have seen -- the one place where the machine knowingly leaves rpc.Conn (docs/C06.md, "heldret")
+    evs, _, _ = steps(case, impl, model)
+    held = sum(1 for e in evs[:n] if e.startswith("h")) - sum(1 for e in evs[:n] if e.startswith("u"))
+    if evk == "R" and held > 0:
+        sig += "/heldret"
+    return sig
 
 
 def crashed(impl):
@@ -61,7 +68,9 @@ def crashed(impl):
 
 EXPLANATION = ("Theorems over ALL event lists (peer messages with arbitrary field values, application actions, in any "
                "order) about an executable Gallina machine of rpc.Conn at the granularity of one handler per event "
-               "(coq/Rpc/Rpc.v); the machine is tied to the code by running the extracted machine and rpc.Conn "
+               "(coq/Rpc/Rpc.v). They are theorems about the machine; they say something about rpc.Conn as far as the "
+               "machine follows it, which is checked, not proved, and knowingly fails in one situation: a peer that answers "
+               "a question whose Call is still being built (known finding 'heldret'). The machine is tied to the code by running the extracted machine and rpc.Conn "
                "(inside testing/synctest, run to quiescence after every event, every history in a child process) on the "
                "same histories: scripted scenarios, a mostly-valid stream generated from what the peer has observed, and "
                "a malformed stream (bad ids, absent exports, null payloads, unknown union members, byte-level corruption).")
